@@ -119,6 +119,9 @@ static void draw_check (pixman_glyph_cache_t *c, vf_rng *r)
     rq_request q1, q2; memset (&q1, 0, sizeof q1);
     unsigned prof = RQP_NO_INDEXED | RQP_NO_ALPHAMAP | RQP_NO_ACCESSORS | RQP_NARROW_ONLY | RQP_NO_GRADIENT;
     rq_gen_image (r, &q1.dst, 2, prof | (vf_chance (r, 1, 2) ? RQP_CLIPPY : 0)); rq_gen_image (r, &q1.src, 0, prof);
+    /* a projective source whose w changes sign inside the destination has coordinates outside 16.16: pixman_image_composite32 refuses such a request
+     * (documented behaviour, see C08) while the glyph entry points do not analyse extents at all; that regime is outside the statement and not generated */
+    if (q1.src.tr_class == TR_PROJECTIVE) rq_gen_transform (r, &q1.src, TR_AFFINE, 0);
     q1.dst.neg = 0; q2 = q1;
     vf_rng r1 = *r, r2 = *r;
     if (!rq_build (&q1, &r1)) return; if (!rq_build (&q2, &r2)) { rq_free (&q1); return; }
